@@ -12,8 +12,6 @@ Open Scope N_scope.
 (* self.sphinx_env.srcdir is set in every Sphinx build ("not set in some test situations") *)
 Definition srcdir_set : bool := true.
 
-(* md_config.commonmark_only / gfm_only: off (the configuration axis modelled is all_links_external) *)
-Definition cfg_off : bool := false.
 (* "class" in token.attrs: generated links carry no attributes *)
 Definition no_attrs : bool := false.
 
@@ -83,3 +81,11 @@ Definition mkcand (role : str) (r : tgt * txt) : cand :=
 (* the absolute path string of an optional location, else a fallback string: f"{abs_path or dest}" *)
 Definition loc_or (P : project) (o : option fsloc) (dflt : str) : str :=
   match o with Some loc => abs_str P loc | None => dflt end.
+
+(* len(results) > 1 *)
+Definition more_than_one {A} (l : list A) : bool := match l with _ :: _ :: _ => true | _ => false end.
+(* a (role, node) candidate as the reference node it is *)
+Definition cand_ref (c : cand) : tgt * txt := (c_tgt c, c_txt c).
+(* len(n.children) == 1 and isinstance(n[0], nodes.inline) and not n[0].children *)
+Definition txt_empty_inline (x : txt) : bool :=
+  match x with X_none => true | X_str s => is_nil s | _ => false end.
